@@ -102,6 +102,15 @@ fn plans(prop: &str, tier: &str) -> Vec<Plan> {
                     (false, true, 0) => vec![(5, 2, 0), (3, 1, 1), (2, 1, 2)],
                     (false, true, _) => vec![(3, 2, 0), (2, 1, 1), (1, 1, 2)],
                 };
+                let mut boxes = boxes;
+                if matches!(prop, "C04" | "C05" | "C06") && (!has_m || !quick) {
+                    // argument encodings depend on drawn values: two simultaneous non-default value answers per step
+                    // (e.g. a non-empty string AND a special character) at a depth-1 box
+                    boxes.push(if quick { (1, 1, 2) } else { (2, 1, 2) });
+                    if !quick && !has_m {
+                        boxes.push((1, 1, 3));
+                    }
+                }
                 for (d, m, b) in boxes {
                     v.push(mk(&label, &cfg, d, m, b));
                 }
